@@ -160,7 +160,7 @@ def plan(tier):
             CASES.append((spec, p1 + p2))
         else:
             CASES.append((spec, p1))
-    for spec in corpus.collision_pack():
+    for spec in corpus.collision_pack() + corpus.merge_pack():
         CASES.append((spec, p1 + p2))
     CASES += punct_cases()
     CASES += climb_cases()
